@@ -7,7 +7,7 @@ Two harness families, both driving the REAL `BSP.read` / `ParsedLump.__get__` / 
             compressed.  read -> (agrees with the file) -> save -> read -> everything equal and every lump byte-identical
             -> save again (same object and re-read object) -> byte-identical files.
 * h_views : an ordered subset of views (symbolic indexes into a cluster: enumeration in solver clothing) is looked at,
-            with symbolic FACEIDS bytes (hammer id) and map revision; save; original and saved file are then re-read and
+            with symbolic FACEIDS bytes (hammer id); save; original and saved file are then re-read and
             compared: header, versions, flags, raw bytes of every lump that no view covers, parsed content of every view;
             saving the same object again gives a byte-identical file; a full-parse save/read cycle keeps the content.
 """
@@ -38,7 +38,7 @@ META = {
               "payload (exact length 0..3 per slice, thorough ..6), game-lump flags+version (4, compression bit clear) and "
               "game-lump payload (0..2); header kind x lump x file layout x compressed-set are concrete slices.  h_views: "
               "ordered subsets of <= 2 (quick) / <= 3 (thorough) views inside each of 5 interaction clusters, symbolic "
-              "FACEIDS (2 bytes) and map revision (4 bytes).",
+              "FACEIDS (2 bytes).",
     "outside": "cross-cluster subsets and subsets larger than 3; maps with more than one face/brush/leaf; the 825 KB sample "
                "BSP (native trace only); LZMA payloads as symbols (lzma is C: compressed lumps carry concrete payloads); the "
                "pakfile view (zipfile is C-backed: PAKFILE is covered as a raw lump only); per-lump reader/writer "
@@ -223,6 +223,12 @@ def setup(engine):
         bf.Struct = bspio.CellStruct
         bf._cached_struct = bspio.cs
         bsp.GameLump.ST = bspio.CellStruct('<4s HH ii')
+        for name in dir(bsp):               # the per-version layout tables hold real struct.Struct objects
+            if name.startswith("LUMP_LAYOUT_"):
+                tab = getattr(bsp, name)
+                for key, val in list(tab.items()):
+                    if isinstance(val, struct.Struct):
+                        tab[key] = bspio.CellStruct(val.format)
         _native_selfcheck()
 
 
@@ -245,7 +251,8 @@ def _native_selfcheck():
                 b = bsp.BSP(p)
                 for v in ALL_VIEWS:
                     getattr(b, v)
-                if [f.hammer_id for f in b.hdr_faces] != [1234] or len(b.visleafs) != 2 or len(b.water_leaf_info) != 1:
+                fresh = bsp.BSP(p)      # order-independent facts only: a defect of the code must not look like a harness error
+                if [f.hammer_id for f in fresh.hdr_faces] != [1234] or len(b.visleafs) != 2 or len(b.water_leaf_info) != 1:
                     raise SystemExit(2)
             except Exception as e:  # noqa
                 print("c10 selfcheck: synthesised BSP unreadable:", kind, type(e).__name__, e)
@@ -506,7 +513,7 @@ def _content_equal(env, a, b, what):
     return ba, bb
 
 
-def _views(o0, o1, o2, hid, rev, cluster, kind, depth, deep, witness=False):
+def _views(o0, o1, o2, hid, cluster, kind, depth, deep, witness=False):
     from vf.stubs import bspio
     names = CLUSTERS[cluster]
     none = len(names)
@@ -528,12 +535,12 @@ def _views(o0, o1, o2, hid, rev, cluster, kind, depth, deep, witness=False):
             continue
         assume(got not in sel)
         sel.append(got)
-    hidc, revc = _cut(hid, 2), _cut(rev, 4)
+    hidc = _cut(hid, 2)
     games = _games(b"\2\0", b"\5\0", b"opaque", False)
     env = _Env()
     try:
         bsp = env.bsp
-        env.put("in.bsp", _synth(kind, over={L["FACEIDS"]: bspio.mk(hidc)}, rev=revc, games=games))
+        env.put("in.bsp", _synth(kind, over={L["FACEIDS"]: bspio.mk(hidc)}, games=games))
         b0 = bsp.BSP(env.path("in.bsp"))
         for v in sel:
             _touch(b0, v)
@@ -552,14 +559,27 @@ def _views(o0, o1, o2, hid, rev, cluster, kind, depth, deep, witness=False):
         raise Fail("reached")
 
 
-def h_views(o0: int, o1: int, o2: int, hid: bytes, rev: bytes, cluster: str, kind: str = "20", depth: int = 2,
+def h_views(o0: int, o1: int, o2: int, hid: bytes, cluster: str, kind: str = "20", depth: int = 2,
             deep: bool = False) -> None:
-    _views(o0, o1, o2, hid, rev, cluster, kind, depth, deep)
+    import os
+    if os.environ.get("C10_DEBUG"):
+        try:
+            _views(o0, o1, o2, hid, cluster, kind, depth, deep)
+        except BaseException as e:
+            import sys, traceback
+            sys.stderr.write("DBG " + type(e).__name__ + " " + str(e)[:300] + "\n")
+            if type(e).__name__ != "IgnoreAttempt":
+                traceback.print_exc()
+            else:
+                sys.stderr.write("".join(traceback.format_tb(e.__traceback__)[-2:]))
+            raise
+        return
+    _views(o0, o1, o2, hid, cluster, kind, depth, deep)
 
 
-def h_views_w(o0: int, o1: int, o2: int, hid: bytes, rev: bytes, cluster: str, kind: str = "20", depth: int = 2,
+def h_views_w(o0: int, o1: int, o2: int, hid: bytes, cluster: str, kind: str = "20", depth: int = 2,
               deep: bool = False) -> None:
-    _views(o0, o1, o2, hid, rev, cluster, kind, depth, deep, witness=True)
+    _views(o0, o1, o2, hid, cluster, kind, depth, deep, witness=True)
 
 
 # ----------------------------------------------------------------------------------------------------- obligations
@@ -589,7 +609,7 @@ def obligations(tier):
     obls.append(Obl("views", MOD, "h_views", slices=vs, budget_s=900 if quick else 3000, per_path_s=240,
                     desc="ordered subsets of views looked at, then save: header, versions, flags, raw bytes of view-less "
                          "lumps and parsed content of every view equal; second save byte-identical",
-                    bound="ordered subsets up to the slice's depth inside one cluster; symbolic FACEIDS and revision"))
+                    bound="ordered subsets up to the slice's depth inside one cluster; symbolic FACEIDS"))
     obls.append(Obl("views.witness", MOD, "h_views_w", slices=[{"cluster": "faces", "depth": 2}], budget_s=600,
                     per_path_s=240, witness=True))
     return obls
